@@ -1,6 +1,7 @@
 (* Case evaluator for the C17 correspondence shards.
    One case = one generated program, rendered and run under several layouts. *)
 From GL Require Import Common.Bytes Dbg.Lines Dbg.Layout Dbg.Scope Dbg.DbgLocals.
+From Coq Require Import Uint63.
 
 (* ---- static facts of the program (known to the generator by construction) ---- *)
 
@@ -27,9 +28,10 @@ Record usetdesc := USetDesc { us_exp : list binding; us_idx : Z; us_val : Z }.
 
 (* ---- what one run under one layout showed ---- *)
 Record layobs := LayObs {
-  lo_src : string;                          (* rendered source text, hex *)
-  lo_spans : list (Z * Z);                  (* (offset, length) of every token *)
-  lo_lex : list Z;                          (* line the real scanner gave every token *)
+  lo_len : Z;                               (* length of the rendered source text *)
+  lo_src : list int;                        (* the text, 7 bytes per integer (Lines.unpack) *)
+  lo_pspans : list int;                     (* offset * 65536 + length of every token *)
+  lo_plex : list int;                       (* line the real scanner gave every token *)
   lo_lines : list Z;                        (* per ldesc: observed line (-1: none reported) *)
   lo_locals : list (list binding);          (* per sdesc: enumerated (name, value) *)
   lo_sets : list (option name * list binding);   (* per setdesc: returned name, enumeration after *)
@@ -45,6 +47,10 @@ Record case := Case {
   c_udescs : list udesc;
   c_usetdescs : list usetdesc;
   c_lays : list layobs }.
+
+Definition lo_bytes (lo : layobs) : bytes := unpack (lo_len lo) (lo_src lo).
+Definition lo_spans (lo : layobs) : list (Z * Z) := map unspan (lo_pspans lo).
+Definition lo_lex (lo : layobs) : list Z := ints_to_Z (lo_plex lo).
 
 (* ---- helpers ---- *)
 Definition znth {A} (l : list A) (i : Z) (d : A) : A :=
@@ -68,7 +74,7 @@ Fixpoint all2 {A B} (f : A -> B -> bool) (a : list A) (b : list B) : bool :=
   end.
 
 (* per layout: (start line, end line) of every token, by the reference rule *)
-Definition lay_lines (lo : layobs) : list (Z * Z) := span_lines (unhex (lo_src lo)) (lo_spans lo).
+Definition lay_lines (lo : layobs) : list (Z * Z) := span_lines (lo_bytes lo) (lo_spans lo).
 
 Definition tokline (ls : list (Z * Z)) (t : Z) : Z := fst (znth ls t (-5, -5)).
 Definition tokend (ls : list (Z * Z)) (t : Z) : Z := snd (znth ls t (-5, -5)).
@@ -77,7 +83,7 @@ Definition tokend (ls : list (Z * Z)) (t : Z) : Z := snd (znth ls t (-5, -5)).
 
 (* the reference newline rule agrees with the real scanner on every token *)
 Definition lex_agrees (lo : layobs) (ls : list (Z * Z)) : bool :=
-  spans_ok 0 (unhex (lo_src lo)) (lo_spans lo) && list_eqb Z.eqb (map fst ls) (lo_lex lo).
+  spans_ok 0 (lo_bytes lo) (lo_spans lo) && list_eqb Z.eqb (map fst ls) (lo_lex lo).
 
 (* observed numbers of descriptor k in every layout, with that layout's token lines *)
 Definition obs_k (lays : list (layobs * list (Z * Z))) (k : nat) : list (Z * list (Z * Z)) :=
@@ -152,7 +158,7 @@ Definition with_lines (c : case) : list (layobs * list (Z * Z)) :=
 
 Definition shapes_ok (c : case) (lo : layobs) : bool :=
   (List.length (lo_lines lo) =? List.length (c_ldescs c))%nat &&
-  (List.length (lo_lex lo) =? List.length (lo_spans lo))%nat.
+  (List.length (lo_plex lo) =? List.length (lo_pspans lo))%nat.
 
 Definition scope_part (f : case -> sdesc -> list binding -> bool)
                       (g : case -> setdesc -> option name * list binding -> bool)
